@@ -176,14 +176,14 @@ namespace Richchk
 
 theorem decodeUprp_go_cons (cfg : RichCfg) (r : List Nat) (rs : List (List Nat)) (k : Nat) :
     decodeUprp.go cfg (r :: rs) k =
-      if r.all (· == 0) then decodeUprp.go cfg rs (k + 1) else decodeCuwp cfg r k :: decodeUprp.go cfg rs (k + 1) := by
+      if cuwpRecUnused r then decodeUprp.go cfg rs (k + 1) else decodeCuwp cfg r k :: decodeUprp.go cfg rs (k + 1) := by
   simp [decodeUprp.go]
 
 theorem decodeCuwp_idx (cfg : RichCfg) (r : List Nat) (k : Nat) : (decodeCuwp cfg r k).idx = some (k + 1) := rfl
 
 theorem decodeUprp_go_mem (cfg : RichCfg) (rs : List (List Nat)) (k : Nat) (c : RCuwp)
     (h : c ∈ decodeUprp.go cfg rs k) :
-    ∃ j, ∃ hj : j < rs.length, rs[j].all (· == 0) = false ∧ c = decodeCuwp cfg rs[j] (k + j) := by
+    ∃ j, ∃ hj : j < rs.length, cuwpRecUnused rs[j] = false ∧ c = decodeCuwp cfg rs[j] (k + j) := by
   induction rs generalizing k with
   | nil => simp [decodeUprp.go] at h
   | cons r rs ih =>
@@ -199,7 +199,7 @@ theorem decodeUprp_go_mem (cfg : RichCfg) (rs : List (List Nat)) (k : Nat) (c : 
 
 theorem decodeUprp_go_find (cfg : RichCfg) (rs : List (List Nat)) (k j : Nat) (hj : j < rs.length) :
     (decodeUprp.go cfg rs k).find? (fun c => c.idx == some (k + j + 1)) =
-      if rs[j].all (· == 0) then none else some (decodeCuwp cfg rs[j] (k + j)) := by
+      if cuwpRecUnused rs[j] then none else some (decodeCuwp cfg rs[j] (k + j)) := by
   induction rs generalizing k j with
   | nil => simp at hj
   | cons r rs ih =>
@@ -252,6 +252,14 @@ theorem allzero10 {r : List Nat} (hl : r.length = 10) (hz : r.all (· == 0) = tr
     obtain ⟨h1, h2, h3, h4, h5, h6, h7, h8, h9, h10⟩ := hz
     subst h1 h2 h3 h4 h5 h6 h7 h8 h9 h10; rfl
 
+theorem cuwpRecUnused_eq_all {r : List Nat} (hl : r.length = 10) (h0 : r.getD 2 0 = 0) :
+    cuwpRecUnused r = r.all (· == 0) := by
+  match r, hl with
+  | [a, b, c, d, e, f, g, h, i, j], _ =>
+    simp only [List.getD_cons_zero, List.getD_cons_succ] at h0
+    subst h0
+    simp [cuwpRecUnused]
+
 theorem take5_getD5 (l : List Bool) (h : l.length = 6) : l.take 5 ++ [l.getD 5 false] = l := by
   match l, h with
   | [a, b, c, d, e, f], _ => rfl
@@ -287,8 +295,9 @@ theorem uprp_rich_roundtrip (cfg : RichCfg) (recs : List (List Nat))
     have hmem : recs[i] ∈ recs := List.getElem_mem hi'
     unfold decodeUprp
     rw [hf, hget]
-    by_cases hz : recs[i].all (· == 0) = true
+    by_cases hz : cuwpRecUnused recs[i] = true
     · simp only [hz, if_true]
+      rw [cuwpRecUnused_eq_all (hw _ hmem) (howner _ hmem)] at hz
       rw [allzero10 (hw _ hmem) hz]
     · simp only [hz, if_false]
       have h0 := howner _ hmem
